@@ -18,7 +18,7 @@ CHECKS = {
  "C03": dict(
    level="model_checking", ref="DESIGN.md section 5, C03",
    text="spec/ProtoCodec.tla defines the Go-type -> message mapping: shapes, values, the standard encoding with explicit pointer presence (Wire), the package's own elision policy (ImplWire, with the wantzero flag) and standard decoding as a fold over wire records. TLC proves Decode(Wire(v)) ~ v and Decode(ImplWire(v)) ~ v on every generated (shape, value) - with the as-is switch it predicts the values the package cannot represent - and enumerates the pairs; each is materialised with reflect.StructOf and Marshal/Size/Unmarshal are checked by the property's relation.",
-   note="Scalar values are abstract ids lifted to boundary tables; nesting through a fixed library of 4 sub-messages; Message/custom-interface types are not generated by the specification.",
+   note="Scalar values are abstract ids lifted to boundary tables; nesting through a fixed library of 4 sub-messages; types with marshalling methods of their own are three fixed ones (proto.RawMessage, a struct implementing proto.Message, a struct implementing the gogo-style custom interface) as plain, pointer, repeated and map-value fields and as top-level arguments; string leaves are also run at every length that takes an enclosing record across the 128 / 16384 varint boundaries; every round trip is also run after failed decodes of damaged encodings of other values of the same type.",
    technique="TLA+ spec + TLC model checking and enumeration of programs/inputs, spec-to-code replay, reference-implementation cross-check of the spec"),
  "C07": dict(
    level="model_checking", ref="DESIGN.md section 5, C07",
